@@ -474,6 +474,41 @@ theorem Handler_fn_preapprove_invoice_malformed (w0 : WireString → List Nat) (
   · rw [h1]; simp only [Rs.okOr, Rs.pure_eq, Rs.bind_ok, h2]; rfl
 end More
 
+/-! ### placeholders and one more signing arm -/
+section Placeholders
+variable {Node ChannelId Txid WithSize Sha256 Transaction PaymentHash Channel TypedSignature : Type}
+
+/-- `CheckOutpoint` is a placeholder in the source (`FIXME - make the call on the node!`): it answers `is_buried = true` for
+    every outpoint, on every channel, **without consulting the node or the chain tracker** (the definition has no external
+    at all); `LockOutpoint` likewise does nothing.  Stated so that a property that would rely on the signer's answer here
+    (funding depth) finds the fact, and so that the day the call is made the theorem breaks and is re-examined. -/
+theorem Handler_fn_check_outpoint (self : ChannelHandler Node ChannelId) (m : CheckOutpoint Txid) :
+    ChannelHandler.do_handle__CheckOutpoint self m = .ok { is_buried := true } := rfl
+
+theorem Handler_fn_lock_outpoint (self : ChannelHandler Node ChannelId) (m : LockOutpoint Txid) :
+    ChannelHandler.do_handle__LockOutpoint self m = .ok ⟨⟩ := rfl
+
+/-- `SignLocalHtlcTx2`: `sign_holder_htlc_tx_phase2` with the message's transaction, input, commitment number, direction,
+    expiry, amount and payment hash, in that order -/
+theorem Handler_fn_sign_local_htlc_tx2 (w0 : WithSize → Transaction) (sha0 : Sha256 → List Nat) (ph : List Nat → PaymentHash)
+    (sgn : Channel → Transaction → Nat → Nat → Bool → Nat → Nat → PaymentHash → Rs.M (Channel × TypedSignature))
+    (wc : {T : Type} → Node → ChannelId → (Channel → Rs.M (Channel × T)) → Rs.M T) (tb : TypedSignature → BitcoinSignature)
+    (self : ChannelHandler Node ChannelId) (m : SignLocalHtlcTx2 WithSize Sha256) :
+    ChannelHandler.do_handle__SignLocalHtlcTx2 w0 sha0 ph sgn wc tb self m
+      = wc self.node self.channel_id (ChannelHandler.do_handle__SignLocalHtlcTx2__with_channel_1 w0 sha0 ph sgn m) >>= fun s =>
+        .ok { signature := tb s } := rfl
+
+theorem Handler_fn_sign_local_htlc_tx2_closure (w0 : WithSize → Transaction) (sha0 : Sha256 → List Nat) (ph : List Nat → PaymentHash)
+    (sgn : Channel → Transaction → Nat → Nat → Bool → Nat → Nat → PaymentHash → Rs.M (Channel × TypedSignature))
+    (m : SignLocalHtlcTx2 WithSize Sha256) (chan : Channel) :
+    ChannelHandler.do_handle__SignLocalHtlcTx2__with_channel_1 w0 sha0 ph sgn m chan
+      = sgn chan (w0 m.tx) m.input m.per_commitment_number m.offered m.cltv_expiry m.htlc_amount_msat (ph (sha0 m.payment_hash)) := by
+  unfold ChannelHandler.do_handle__SignLocalHtlcTx2__with_channel_1
+  cases sgn chan (w0 m.tx) m.input m.per_commitment_number m.offered m.cltv_expiry m.htlc_amount_msat (ph (sha0 m.payment_hash)) with
+  | error e => rfl
+  | ok r => obtain ⟨c, x⟩ := r; rfl
+end Placeholders
+
 /-! ### chain-tracker arms of the RootHandler (C13) -/
 section Tracker
 variable {Node Approve LargeOctets ChainTracker TxoProof Headers BlockHash Octets : Type}
